@@ -1,13 +1,33 @@
 #!/usr/bin/env python3
 """Regenerates /verif/MANIFEST.json from the table below (keeps it schema-valid)."""
 import json, subprocess
+T_REPLAY = 'TLA+ spec as oracle + TLC behaviour generation + replay into real code'
+# id: (category, text, level_note, technique, design_ref)
 CHECKS = {
- 'C02': ('exploration', 'TLC-enumerated lattice CSG programs (Program.tla/Lattice.tla as exact oracle) replayed on the real API; '
-         'exhaustive over all ordered pairs of the 27 boxes of the 2x2x2 window x 3 ops, seeded simulation beyond. Lattice regime only.',
-         'independent solid-angle winding oracle at cell centres; TLC; lattice (coincident/coplanar) regime',
-         'TLA+ spec as oracle + TLC behaviour generation + replay into real code', '5 C02'),
+ 'C01': ('exploration', 'Closed2Manifold predicate (the clause list of the statement) evaluated on 64/32-bit exports of every handle of '
+         'TLC-generated lattice programs with coincident/touching/nested operands and all Program.tla derivations',
+         'lattice programs only so far; predicate implemented in the driver', 'TLC behaviour generation + replay with manifoldness oracle', '5 C01'),
+ 'C02': ('exploration', 'TLC-enumerated lattice CSG programs (Program.tla/Lattice.tla/Expr.tla as exact oracle) replayed on the real API eagerly and lazily; '
+         'exhaustive over all ordered pairs of the 27 boxes of the 2x2x2 window x 3 ops and over two transformed leaves; seeded simulation beyond.',
+         'independent solid-angle winding oracle at cell centres; lattice (coincident/coplanar) regime only', T_REPLAY, '5 C02'),
+ 'C03': ('model_checking', 'Expr.tla: TLC checks that a functional transcription of the lazy evaluator (collapse, transform push-down, '
+         'negative-children propagation, flat batches, cache) equals the set-algebra denotation on exhaustively enumerated annotated '
+         'expression families; every enumerated expression is executed on the real code lazily/eagerly/held-first with real object '
+         'lifetimes and compared with the denotation; Program.tla adds seeded DAG x forcing-order x lifetime behaviours.',
+         'small-scope (<=4 leaves, lattice boxes, 90-degree/translation transforms); winding oracle; transcription of csg_tree.cpp by hand',
+         'TLC model checking of evaluator rewrites + exhaustive spec-generated behaviours replayed on real code', '5 C03'),
+ 'C05': ('model_checking', 'Program.tla!ValueStable model-checked; TLC-generated histories over a pool of live objects replayed with every '
+         'already-observed handle re-observed bit-for-bit after every later action; Expr.tla families with the derived root dropped '
+         'unevaluated / evaluated first (held and shared sub-expressions must keep their value).',
+         'observation = hash of full MeshGL64 export + scalar getters; lattice regime; CrossSection values not yet covered',
+         'TLC-generated histories replayed on real code with value-stability oracle from the spec', '5 C05'),
+ 'C08': ('exploration', 'export -> import -> export compared as canonical triangle multisets (bit-exact properties, IDs, flags, transforms) for every handle of '
+         'TLC-generated programs', 'tangents / 32-bit / OBJ paths not covered yet', 'TLC behaviour generation + replay with round-trip oracle', '5 C08'),
+ 'C18': ('exploration', 'measurement queries of every live handle of TLC-generated lattice programs compared with Lattice.tla (cells, exposed faces, '
+         'extent, slices, shadow, components) and with sums over the export', 'lattice regime; MinGap/general position not covered yet', T_REPLAY, '5 C18'),
 }
-NA = []
+NA = {}
+
 def main():
     props = [json.loads(l)['id'] for l in open('/verif/properties.jsonl')]
     commits = []
@@ -34,7 +54,7 @@ def main():
                                 'level_claimed': {'category': cat, 'text': text, 'design_ref': ref},
                                 'level_note': note, 'technique': tech})
         else:
-            reason = dict(NA).get(pid, 'check not built yet in this round (planned, see DESIGN.md section 5); not claimed')
+            reason = NA.get(pid, 'check not built yet in this round (planned, see DESIGN.md section 5); not claimed')
             m['not_applicable'].append({'property_id': pid, 'reason': reason})
     json.dump(m, open('/verif/MANIFEST.json', 'w'), indent=1)
 main()
